@@ -8,7 +8,7 @@ def rng_for(case, *extra):
 
 _STRUCT = [0]
 STRUCT_KINDS = ["gauss", "const", "alternating", "onehot", "small-int", "pow2", "zeros-mixed",
-                "palindrome", "denormal"]
+                "palindrome", "denormal", "antisym"]
 
 
 class structured:
@@ -63,6 +63,13 @@ def _structure(rng, a, k):
     if k == 7:
         flat = a.reshape(-1)
         return ((flat + flat[::-1]) / 2).reshape(shape).astype(a.dtype)
+    if k == 9:
+        # second half = minus first half (flat order): sums over a leading batch / coil axis
+        # cancel exactly although no entry is zero
+        out = a.copy().reshape(-1)
+        h = n // 2
+        out[h:2 * h] = -out[:h]
+        return out.reshape(shape)
     out = a.copy().reshape(-1)
     tiny = 1e-40 if a.dtype in (np.float32, np.complex64) else 5e-310
     m = rng.random(n) < 0.3
